@@ -143,6 +143,7 @@ func zzH_C11_send() {
 	verifQuiesce()
 	acks := verifNondetRange(0, verifBound("ACKS"))
 	step := 0
+	badAck := false
 	for k := 0; k < acks; k++ {
 		n := zzFrameLen11(sink.data, t.transferConfig.Binary, k)
 		if n < 0 {
@@ -151,20 +152,28 @@ func zzH_C11_send() {
 		step += n
 		if verifNondetBool() {
 			t.addReceivedData([]byte("#SUCC:"+zzItoa11(n+1)+"/"+zzItoa11(step)+"\n"), false) // wrong length echo
+			badAck = true
 			verifReach("bad-ack")
 		} else {
 			t.addReceivedData([]byte("#SUCC:"+zzItoa11(n)+"/"+zzItoa11(step)+"\n"), false)
 		}
 		verifQuiesce()
 	}
+	finalAck := false
 	if verifNondetBool() {
 		t.addReceivedData([]byte("#SUCC:"+zzItoa11(int(size))+"\n"), false) // final "all saved" ack
+		finalAck = true
 		verifQuiesce()
 	}
 	zzSettle11() // the peer is silent from here on
 	verifAssert(done, "sendFileDataV2 did not return although the peer has been silent beyond the timeout")
-	verifAssertNoLiveThreads("worker left running after the transfer function returned")
+	if verifBound("LEAKCHECK") != 0 {
+		verifAssertNoLiveThreads("worker left running after the transfer function returned")
+	}
 	if rerr == nil {
+		verifAssert(finalAck, "success reported without the peer's final saved==size acknowledgement")
+		verifAssert(!badAck, "success reported although a chunk's length echo was wrong")
+		verifAssert(file.short == 0, "success reported for a source file that shrank")
 		verifReach("success")
 	} else {
 		verifReach("error")
@@ -237,7 +246,9 @@ func zzH_C11_recv() {
 	}
 	zzSettle11()
 	verifAssert(done, "recvFileDataV2 did not return although the peer has been silent beyond the timeout")
-	verifAssertNoLiveThreads("worker left running after the transfer function returned")
+	if verifBound("LEAKCHECK") != 0 {
+		verifAssertNoLiveThreads("worker left running after the transfer function returned")
+	}
 	verifAssert(w.closed, "destination file not closed")
 	if rerr == nil {
 		verifAssert(int64(len(w.data)) == size, "success reported for a file of the wrong length")
